@@ -128,6 +128,7 @@ Theorem C02_checker_sound : forall c, c02_prop c = true ->
   | Stream ser dir ms jt mt wire obs => obs = map msg_call ms
   | CallRes r obs => obs = call_result (pack r)
   | CbArgs r obs => obs = pack r
+  | Unmodified orig after => after = orig
   end.
 Proof. exact c02_prop_sound. Qed.
 Print Assumptions C02_checker_sound.
